@@ -34,6 +34,17 @@ func canon(v ssa.Value, d int) string {
 		return canon(x.X, d+1)
 	case *ssa.MakeInterface:
 		return canon(x.X, d+1)
+	case *ssa.ChangeInterface:
+		return canon(x.X, d+1)
+	case *ssa.TypeAssert:
+		// the asserted value is the same value seen at another type
+		if !x.CommaOk {
+			return canon(x.X, d+1)
+		}
+	case *ssa.Extract:
+		if ta, ok := x.Tuple.(*ssa.TypeAssert); ok && x.Index == 0 {
+			return canon(ta.X, d+1)
+		}
 	case *ssa.Alloc:
 		// a local stored exactly once (parameter spill / single assignment): the stored value
 		if s := singleStore(x); s != nil {
